@@ -1,11 +1,14 @@
 package main
 
 func init() {
+	// the 16 shards run side by side; large chunks make the garbage collector the
+	// main cost, which a small GOMAXPROCS per process keeps cheap
+	env := []string{"GOMAXPROCS=2", "GOGC=300"}
 	plans["C38"] = Plan{Pkg: pkg("C38"), Steps: []Step{
 		// self-test of the arithmetic model (a failure is an infrastructure problem, not a violation)
 		{Run: "TestModel", Kind: "test"},
 		// enumeration of every chunk size in [8192,12288) and 2^k+-2; the test partitions the domain by VERIF_SHARD
-		{Run: "TestResidues", Quick: 1, Thorough: 1, QShards: 16, TShards: 16, FullChecks: true},
-		{Run: "TestGenerated", Quick: 40000, Thorough: 1000000, QShards: 16, TShards: 16},
+		{Run: "TestResidues", Quick: 1, Thorough: 1, QShards: 16, TShards: 16, FullChecks: true, Env: env},
+		{Run: "TestGenerated", Quick: 32000, Thorough: 800000, QShards: 16, TShards: 16, Env: env},
 	}}
 }
